@@ -86,6 +86,10 @@ def check_program(env, prog, label, ndata):
             values.append(r.value)
     if not values:
         return
+    extra = [c for v in values[:3] for c in harness.undefined_variants(t, v)]
+    if extra:
+        env.count("undefined_by_construction_values", len(extra))
+        values += extra
     aliaser = rng.choice(["identity", "identity", "camel", "custom"])
     ap = rng.random() < 0.3
     kw = {"additional_properties": ap}
